@@ -388,17 +388,195 @@ def run_wedges(shard):
     return acc
 
 
+WEDGE_ALLENES = ['CC=[C@]=CC', 'CC=[C@@]=CC', 'CC(F)=[C@]=C(Cl)C', 'CC(F)=[C@@]=C(Cl)C', 'CC(F)=[C@]=CCl', 'FC=[C@]=C(Cl)Br', 'CC=[C@]=C(Cl)C', 'OC(C)=[C@]=C(N)CC', 'CC(C)C=[C@@]=C(C)CC', 'C1CCCC(C)=[C@]=C1']
+WEDGE_TETRA = ['C[C@H](F)Cl', 'F[C@](Cl)(Br)I', 'C[C@](N)(O)F', 'N[C@@H](C)C(=O)O', 'C[C@H]1CCCO1', 'C[C@]1(F)CCCO1', 'CC[C@H](C)O', 'C[C@H](O)c1ccccc1', 'C[C@@H]1CC[C@H](O)CC1', 'C[C@H](N)[C@@H](O)C',
+               'C[C@]12CCCC[C@H]1OCC2', 'O[C@H]1CCC[C@@H]1C', 'C[C@@H](CC)C(C)(C)C', 'C[C@H](C#N)C=C']
+
+
+def _rd_layout(s):
+    from rdkit import Chem
+    from rdkit.Chem import AllChem
+    rd = Chem.MolFromSmiles(s)
+    AllChem.Compute2DCoords(rd)
+    conf = rd.GetConformer()
+    return rd, [(conf.GetAtomPosition(i).x, conf.GetAtomPosition(i).y) for i in range(rd.GetNumAtoms())]
+
+
+def run_wedge_choices(shard):
+    """EVERY wedge that can be drawn at a centre (every substituent x up/down), not only the library's own choice.
+    allenes: geometric class oracle (the eight wedges fall into two classes by mark x side of the substituent x terminal); tetrahedra: RDKit derives the configuration from the same wedge"""
+    from chython import smiles
+    from rdkit import Chem, RDLogger
+    RDLogger.DisableLog('rdApp.*')
+    kind, tier = shard
+    acc = Acc()
+    if kind == 'allene':
+        for s in WEDGE_ALLENES:
+            m = smiles(s)
+            rd, xy = _rd_layout(s)
+            if len(m) != len(xy):
+                continue
+            for (n, a), p in zip(m.atoms(), xy):
+                a.xy = p
+            m.flush_cache()
+            centres = [n for n, a in m.atoms() if a.stereo is not None and n in m._stereo_allenes_terminals]
+            if len(centres) != 1:
+                acc.ood['allene text without a labelled centre after reading: %s' % s] += 1
+                continue
+            c = centres[0]
+            t1, t2 = m._stereo_allenes_terminals[c]
+            chain = set(m._stereo_allenes_paths[c]) if hasattr(m, '_stereo_allenes_paths') else None
+            pos = dict(zip(list(m), xy))
+            ax = (pos[t2][0] - pos[t1][0], pos[t2][1] - pos[t1][1])
+            results = {}
+            for t, flip in ((t1, 1), (t2, -1)):
+                inner = [x for x in m._bonds[t] if m._bonds[t][x].order == 2]
+                for x in m._bonds[t]:
+                    if x in inner or m.atom(x).atomic_number == 1:
+                        continue
+                    v = (pos[x][0] - pos[t][0], pos[x][1] - pos[t][1])
+                    cr = ax[0] * v[1] - ax[1] * v[0]
+                    if abs(cr) < 1e-6:
+                        acc.ood['substituent collinear with the allene axis in the layout'] += 1
+                        continue
+                    side = 1 if cr > 0 else -1
+                    for mark in (1, -1):
+                        acc.states += 1
+                        acc.transitions += 1
+                        cc = m.copy()
+                        for _, a in cc.atoms():
+                            a._stereo = None
+                        cc.flush_cache()
+                        try:
+                            cc.add_wedge(t, x, mark)
+                        except Exception as e:
+                            acc.fail('add_wedge on an allene substituent raised %s' % type(e).__name__, mol=s, wedge=[t, x, mark])
+                            continue
+                        results[(t, x, mark)] = (flip * mark * side, cc.atom(c).stereo)
+            by_class = {}
+            for w, (chi, sg) in results.items():
+                by_class.setdefault(chi, set()).add(sg)
+            acc.outcomes[tuple(sorted((k_, tuple(sorted(map(str, v)))) for k_, v in by_class.items()))] += 1
+            if any(None in v for v in by_class.values()):
+                acc.fail('a wedge on an allene substituent assigns no configuration', mol=s, results={str(k_): str(v) for k_, v in results.items()})
+            elif any(len(v) > 1 for v in by_class.values()) or (len(by_class) == 2 and by_class[1] == by_class[-1]):
+                acc.fail('wedges that denote the same arrangement of an allene give different configurations (or mirror-image wedges the same)', mol=s,
+                         results={str(k_): [chi, str(sg)] for k_, (chi, sg) in results.items()})
+            else:
+                # anchor: the library's own wedge restores the stored sign
+                own = [w for w in m._wedge_map if w[0] in (t1, t2)]
+                for (n_, k_, mk) in own:
+                    if (n_, k_, mk) in results and results[(n_, k_, mk)][1] != m.atom(c).stereo:
+                        acc.fail('own wedge of an allene does not restore its sign', mol=s, wedge=[n_, k_, mk])
+        acc.sample({'allenes': WEDGE_ALLENES[:4]})
+        return acc
+    fam = list(WEDGE_TETRA)
+    if tier == 'thorough':
+        fam += [s for s in M.corpus(stride=16) if '@' in s][:150]
+    for s in fam:
+        rd0 = Chem.MolFromSmiles(s)
+        if rd0 is None:
+            continue
+        flat = Chem.MolToSmiles(rd0, isomericSmiles=False)
+        try:
+            m = smiles(s)
+        except Exception:
+            continue
+        rd, xy = _rd_layout(s)
+        if len(m) != len(xy):
+            continue
+        from ..oracle import rdk
+        if rdk.noncarbon_stereo(rd0):
+            acc.ood['non-carbon stereocentre'] += 1
+            continue
+        nums = list(m)
+        for n, p in zip(nums, xy):
+            m.atom(n).xy = p
+        m.flush_cache()
+        centres = [n for n, a in m.atoms() if a.stereo is not None and n in m.stereogenic_tetrahedrons]
+        for c in centres:
+            ci = nums.index(c)
+            for x in m._bonds[c]:
+                if m.atom(x).atomic_number == 1:
+                    continue
+                xi = nums.index(x)
+                for mark in (1, -1):
+                    acc.states += 1
+                    acc.transitions += 2
+                    cc = m.copy()
+                    for _, a in cc.atoms():
+                        a._stereo = None
+                    for *_, b in cc.bonds():
+                        b._stereo = None
+                    cc.flush_cache()
+                    try:
+                        cc.add_wedge(c, x, mark)
+                    except Exception as e:
+                        if type(e).__name__ == 'NotChiral':
+                            acc.ood['centre stereogenic only through other labels'] += 1
+                        else:
+                            acc.fail('add_wedge on a tetrahedral centre raised %s' % type(e).__name__, mol=s, wedge=[c, x, mark])
+                        continue
+                    got = format(cc, '')
+                    # the same drawing for RDKit
+                    rw = Chem.RWMol(Chem.MolFromSmiles(s))
+                    for a in rw.GetAtoms():
+                        a.SetChiralTag(Chem.ChiralType.CHI_UNSPECIFIED)
+                    for b in rw.GetBonds():
+                        b.SetStereo(Chem.BondStereo.STEREONONE)
+                        b.SetBondDir(Chem.BondDir.NONE)
+                    bt = rw.GetBondBetweenAtoms(ci, xi).GetBondType()
+                    rw.RemoveBond(ci, xi)
+                    rw.AddBond(ci, xi, bt)
+                    rw.GetBondBetweenAtoms(ci, xi).SetBondDir(Chem.BondDir.BEGINWEDGE if mark == 1 else Chem.BondDir.BEGINDASH)
+                    mol = rw.GetMol()
+                    cf = Chem.Conformer(mol.GetNumAtoms())
+                    for i_, p in enumerate(xy):
+                        cf.SetAtomPosition(i_, (p[0], p[1], 0.0))
+                    mol.RemoveAllConformers()
+                    mol.AddConformer(cf)
+                    try:
+                        Chem.SanitizeMol(mol)
+                        Chem.AssignChiralTypesFromBondDirs(mol)
+                        Chem.AssignStereochemistry(mol, cleanIt=True, force=True)
+                        exp = Chem.MolToSmiles(mol)
+                    except Exception:
+                        acc.ood['rdkit cannot derive a configuration from the wedge'] += 1
+                        continue
+                    if '@' not in exp:
+                        acc.ood['rdkit derives no configuration from this wedge'] += 1
+                        continue
+                    same = rd_same_text(got, exp)
+                    acc.outcomes[bool(same)] += 1
+                    if same is False:
+                        acc.fail('configuration from a wedge differs from the one RDKit derives from the same drawing :: %s' % s, mol=s, wedge=[c, x, mark], got=got, expected=exp)
+    acc.sample({'tetrahedral': fam[:4], 'wedges': 'every heavy neighbour x up/down'})
+    return acc
+
+
 def plan(tier, seed):
     return [Stage('sign permutations', run_permutations, [0], '10 tetrahedral centres x all neighbour orders (24/6, explicit H at every position, 3-subsets) x both signs; cis/trans and allenes x every end choice'),
             Stage('spellings vs RDKit', run_spellings, [(k, 64, tier) for k in range(64)], 'centres, alkenes, ring/spiro stereo family, stereo corpus: every own traversal (<=7 atoms; <=2 / <=1 deviations above) + RDKit roots x renumberings'),
             Stage('stereoisomer identity and stereogenicity', run_isomers, [0], '12 templates x all 2^s label combinations x all pairs vs RDKit; C(a)(b)(c)(d) and abC=Ccd over substituent alphabets'),
-            Stage('wedge round trip', run_wedges, [(k, 32, tier) for k in range(32)], 'own wedge map -> add_wedge restores signs on RDKit 2D coordinates; RDKit reads the written MolBlock as the same stereoisomer')]
+            Stage('wedge round trip', run_wedges, [(k, 32, tier) for k in range(32)], 'own wedge map -> add_wedge restores signs on RDKit 2D coordinates; RDKit reads the written MolBlock as the same stereoisomer'),
+            Stage('every wedge choice', run_wedge_choices, [('allene', tier), ('tetra', tier)],
+                  'every heavy substituent x up/down at 10 allenes (geometric two-class oracle) and at the centres of 14 molecules (+corpus in thorough) vs the configuration RDKit derives from the same drawing')]
 
 
 def replay(rec):
     key = rec['key']
     if 'permutation' in key or 'involution' in key or 'flip' in key or 'direction' in key or 'translation raised' in key or 'label lost' in key:
         a = run_permutations(0)
+    elif 'allene' in key and 'wedge' in key:
+        a = run_wedge_choices(('allene', 'quick'))
+    elif 'from a wedge differs' in key or 'on a tetrahedral centre raised' in key:
+        global WEDGE_TETRA
+        keep = WEDGE_TETRA
+        WEDGE_TETRA = [rec['mol']]
+        try:
+            a = run_wedge_choices(('tetra', 'quick'))
+        finally:
+            WEDGE_TETRA = keep
     elif 'wedge' in key or 'MolBlock' in key or 'configuration from the written' in key:
         import vf.props.c12 as me
         a = Acc()
